@@ -165,6 +165,13 @@ def run(ctx):
     ctx.cov["input_distribution"]["tracked-histories(oracle only: annotated constraints, all classes)"]["unsat_core_calls"] = mo["opdist"].get("unsat_core", 0)
     fails += mo["fails"]
     # same-shape families (own alphabet: one 8/16-bit variable, `(x + a) OP c` for many c, look-alikes for Z3's AST hash side by side)
+    # more tracked constraints than the Z3 backend's AST cache holds (a private backend with a cache of 64 entries; the global one
+    # holds 10000): the cache must own a reference to the ASTs of tracked constraints, or eviction frees them while in use
+    # (Z3Exception 'invalid argument' on the next add of such a constraint; found by the same-shape-families stage at the thorough tier)
+    bad_cache = tracked_beyond_cache()
+    ctx.count(600)
+    if bad_cache:
+        ctx.violation("C16/SolverCacheless/unsat_core/crash:tracked-constraints-beyond-ast-cache", bad_cache, {"beyond_cache": True})
     fam, fstats = corefam.stage(ctx, ctx.pick(150, 1500), ctx.pick(4096, 16384))
     ctx.cov["input_distribution"]["same-shape-families"] = fstats
     for case, kind, why in fam[:3]:
@@ -186,7 +193,51 @@ def run(ctx):
         SC.report_failures(ctx, "C16", other[:1])
 
 
+_BEYOND = r"""
+import claripy, sys
+from claripy.backends.backend_z3 import BackendZ3
+b = BackendZ3(ast_cache_size=64)
+x = claripy.BVS("c16_cache_x", 16, explicit_name=True)
+cons = [claripy.UGT(x, i + 7) for i in range(300)]
+low = claripy.ULT(x, 5)
+for rnd in range(2):
+    for c in cons:
+        try:
+            t = claripy.SolverCacheless(backend=b, track=True)
+            t.add(c); t.add(low)
+            if t.satisfiable():
+                print("BAD %s and %s reported satisfiable" % (c, low)); sys.exit(0)
+            core = tuple(t.unsat_core())
+        except Exception as e:
+            print("BAD round %d, constraint %s: %s: %s" % (rnd, c, type(e).__name__, str(e)[:120])); sys.exit(0)
+        if {k.hash() for k in core} != {c.hash(), low.hash()}:
+            print("BAD round %d: core of [%s, %s] is %s" % (rnd, c, low, [str(k) for k in core])); sys.exit(0)
+print("GOOD")
+"""
+
+
+def tracked_beyond_cache():
+    """-> None | text: 300 tracked look-alike constraints, each in its own solver together with a contradiction, twice over, through
+    a private Z3 backend whose AST cache holds 64 entries; every unsat_core() must consist of exactly the two constraints.  Run in
+    a child interpreter: a freed Z3 AST can also take the process down."""
+    import subprocess, sys
+    try:
+        r = subprocess.run([sys.executable, "-c", _BEYOND], capture_output=True, text=True, timeout=300)
+    except subprocess.TimeoutExpired:
+        return "the child interpreter did not finish within 300 s"
+    out = [l for l in r.stdout.splitlines() if l.startswith(("BAD", "GOOD"))]
+    if r.returncode != 0 or not out:
+        return "the child interpreter died (exit status %s) %s" % (r.returncode, (r.stderr or "").strip().splitlines()[-1:] or "")
+    return None if out[-1] == "GOOD" else out[-1][4:]
+
+
 def replay(ctx, obj):
     if "family" in obj["replay"]:
         return corefam.replay(obj)
+    if obj["replay"].get("beyond_cache"):
+        bad = tracked_beyond_cache()
+        print(bad or "no failure on the current tree")
+        if bad:
+            print("VIOLATION property=C16 replay=(given)")
+        return 1 if bad else 0
     return SC.replay_history("C16", obj)
